@@ -61,9 +61,8 @@ impl Qcow2IoTokio {
         let mut file = self.file.lock().await;
 
         file.seek(SeekFrom::Start(offset)).await?;
-        let res = file.write(buf).await?;
-
-        assert!(res == buf.len());
+        // one write() takes 2 MiB (tokio's buffer size) at most
+        file.write_all(buf).await?;
 
         // tokio's File::write() only hands the data to a background task;
         // wait until the write has really been issued, so that its error is
@@ -81,9 +80,19 @@ impl Qcow2IoOps for Qcow2IoTokio {
         let mut file = self.file.lock().await;
 
         file.seek(SeekFrom::Start(offset)).await?;
-        let res = file.read(buf).await?;
 
-        Ok(res)
+        // one read() returns 2 MiB (tokio's buffer size) at most: a short
+        // count means end of file to our callers
+        let mut done = 0;
+        while done < buf.len() {
+            let res = file.read(&mut buf[done..]).await?;
+            if res == 0 {
+                break;
+            }
+            done += res;
+        }
+
+        Ok(done)
     }
 
     async fn write_from(&self, offset: u64, buf: &[u8]) -> Qcow2Result<()> {
